@@ -73,10 +73,8 @@ Print Assumptions C04_label_term_is_its_address.
 (* (d) at a 16-bit operand position - extended, 16-bit immediate, [extended indirect], FDB - the two operand
    bytes of a label expression are its value modulo 65536, high byte first, when the value lies in
    -32768..65535, and the statement is rejected otherwise: never anything else.
-   PARTIAL: the 8-bit positions (8-bit immediate, forced direct, FCB) go through the same fit_value with
-   2 digits (PRender.fit_value_2_emits: one byte or rejected) but are not composed into a statement-level
-   theorem here; index offsets and PCR targets are C01/C03 theorems. *)
-Theorem C04_label_expression_16bit_emits_partial :
+   The 8-bit positions follow in (e); index offsets and PCR targets are C01/C03 theorems. *)
+Theorem C04_label_expression_16bit_emits :
   forall ss this s s' l op r m,
     is_relative_op (s_operand s) = false -> operand_value (s_operand s) = VExpr l op r m true ->
     cp_needs (s_pkg s) = false ->
@@ -87,7 +85,7 @@ Theorem C04_label_expression_16bit_emits_partial :
     exists z, calc_offset_z ss l op r = Ok z /\ (-32768 <= z <= 65535)%Z /\
               emit_value (cp_add (s_pkg s')) = Ok [Z.to_N ((z mod 65536) / 256); Z.to_N (z mod 256)].
 Proof. exact label_expression_16bit_emits. Qed.
-Print Assumptions C04_label_expression_16bit_emits_partial.
+Print Assumptions C04_label_expression_16bit_emits.
 
 Theorem C04_label_expression_16bit_rejects :
   forall ss this s l op r m z,
@@ -98,6 +96,32 @@ Theorem C04_label_expression_16bit_rejects :
     fix_stmt ss this s = Diag 2.
 Proof. exact label_expression_16bit_rejects. Qed.
 Print Assumptions C04_label_expression_16bit_rejects.
+
+(* (e) at an 8-bit operand position - 8-bit immediate, forced direct, a single FCB element - the one operand byte of a
+   label expression is its value modulo 256 when the value lies in -128..255 (0..255 for a direct-page address), and
+   the statement is rejected otherwise: never anything else *)
+Theorem C04_label_expression_8bit_emits :
+  forall ss this s s' l op r m,
+    is_relative_op (s_operand s) = false -> operand_value (s_operand s) = VExpr l op r m true ->
+    cp_needs (s_pkg s) = false ->
+    (match s_operand s with OImmediate _ => imm_digits (s_instr s) | OPseudo _ _ => if Tables.is_multi_byte (s_instr s) then 2 else 4
+                          | ODirect _ => 2 | _ => 4 end) = 2 ->
+    fix_stmt ss this s = Ok s' ->
+    exists z, calc_offset_z ss l op r = Ok z /\ (-128 <= z <= 255)%Z /\
+              ((match s_operand s with ODirect _ => false | _ => true end) = false -> (0 <= z)%Z) /\
+              emit_value (cp_add (s_pkg s')) = Ok [Z.to_N (z mod 256)].
+Proof. exact label_expression_8bit_emits. Qed.
+Print Assumptions C04_label_expression_8bit_emits.
+
+Theorem C04_label_expression_8bit_rejects :
+  forall ss this s l op r m z,
+    is_relative_op (s_operand s) = false -> operand_value (s_operand s) = VExpr l op r m true ->
+    (match s_operand s with OImmediate _ => imm_digits (s_instr s) | OPseudo _ _ => if Tables.is_multi_byte (s_instr s) then 2 else 4
+                          | ODirect _ => 2 | _ => 4 end) = 2 ->
+    calc_offset_z ss l op r = Ok z -> (z < -128 \/ 255 < z)%Z ->
+    fix_stmt ss this s = Diag 2.
+Proof. exact label_expression_8bit_rejects. Qed.
+Print Assumptions C04_label_expression_8bit_rejects.
 
 Definition t (s : String.string) : text := text_of_string s.
 Local Open Scope string_scope.
